@@ -35,6 +35,10 @@ VARIABLES th,      \* thread path -> machine configuration
 
 vars == <<th, heap, test>>
 
+DiskTid == <<0 - 1>>       \* reserved thread path under which the blocks of the disk FFI live in the heap
+DiskBlocks == 30
+BlockBytes == 4096
+
 -----------------------------------------------------------------------------
 (* values *)
 VUnit        == [k |-> "unit"]
@@ -156,11 +160,12 @@ Arity(name) ==
   CASE name \in {"Fst", "Snd", "InjL", "InjR", "to_u64", "to_u32", "to_u8", "ty.size", "ty.isprod", "ty.isunit",
                  "ty.fst", "ty.snd", "zero_val", "slice.T", "mapT", "arrayT", "str.len", "str.ofbyte",
                  "uint64_to_string", "StartRead", "FinishRead", "PrepareWrite", "Load", "ArbitraryInt", "Panic",
-                 "is_null"} -> 1
-    [] name \in {"loc_add", "prodT", "str.get", "AllocN", "FinishStore"} -> 2
+                 "is_null", "DiskRead", "DiskSize"} -> 1
+    [] name \in {"loc_add", "prodT", "str.get", "AllocN", "FinishStore", "DiskWrite"} -> 2
     [] name \in {"Case", "CmpXchg"} -> 3
     [] OTHER -> 0
-Visible == {"AllocN", "StartRead", "FinishRead", "PrepareWrite", "FinishStore", "Load", "CmpXchg", "ArbitraryInt", "Panic"}
+Visible == {"AllocN", "StartRead", "FinishRead", "PrepareWrite", "FinishStore", "Load", "CmpXchg", "ArbitraryInt", "Panic",
+            "DiskRead", "DiskWrite", "DiskSize"}
 
 ToWidth(c, kind, n, a) == IF IsWord(a) THEN Ret(c, VW(kind, Resize(a.w, n))) ELSE Stuck(c, "integer conversion of a non-integer")
 
@@ -281,6 +286,27 @@ ExecPrim(c, h, tid, arb) ==
          THEN LET old == h[a[1].l].v  ok == ValEq(old, a[2]) IN
               Res(Ret(c, VPair(old, VBool(ok))), IF ok THEN [h EXCEPT ![a[1].l].v = a[3]] ELSE h)
          ELSE Res(Stuck(c, "CmpXchg on an unallocated or concurrently accessed location"), h)
+    \* ---- the disk FFI (ffi/disk.v): DiskBlocks blocks of BlockBytes bytes. The disk lives in the heap under the
+    \* reserved thread path DiskTid; a byte that was never written has no cell and reads as zero. Read allocates a
+    \* fresh block and copies (one atomic step, as ReadOp); Write copies BlockBytes cells from the given location
+    \* (WriteOp requires the block to be readable: no concurrent writer).
+    [] op = "DiskRead" ->
+         IF a[1].k = "u64" /\ FitsNat(a[1].w) /\ ToNat(a[1].w) < DiskBlocks
+         THEN LET ad == ToNat(a[1].w)
+                  blk == c.na + 1
+                  cells == [l \in {<<tid, blk, o>> : o \in 0..(BlockBytes - 1)} |->
+                              [s |-> 0, v |-> IF <<DiskTid, ad, l[3]>> \in DOMAIN h THEN h[<<DiskTid, ad, l[3]>>].v ELSE VW("u8", ZeroW(1))]]
+              IN Res(Ret([c EXCEPT !.na = blk], VLoc(<<tid, blk, 0>>)), cells @@ h)
+         ELSE Res(Stuck(c, "disk read out of bounds"), h)
+    [] op = "DiskWrite" ->
+         IF a[1].k = "u64" /\ FitsNat(a[1].w) /\ ToNat(a[1].w) < DiskBlocks /\ a[2].k = "loc"
+            /\ \A o \in 0..(BlockBytes - 1) : LET l == <<a[2].l[1], a[2].l[2], a[2].l[3] + o>> IN l \in DOMAIN h /\ h[l].s >= 0 /\ h[l].v.k = "u8"
+         THEN LET ad == ToNat(a[1].w)
+                  cells == [l \in {<<DiskTid, ad, o>> : o \in 0..(BlockBytes - 1)} |->
+                              [s |-> 0, v |-> h[<<a[2].l[1], a[2].l[2], a[2].l[3] + l[3]>>].v]]
+              IN Res(Ret(c, VUnit), cells @@ h)
+         ELSE Res(Stuck(c, "disk write out of bounds or from a block that is not 4096 readable bytes"), h)
+    [] op = "DiskSize" -> Res(Ret(c, U64(DiskBlocks)), h)
     [] op = "ArbitraryInt" -> Res(Ret(c, VW("u64", arb)), h)
     [] op = "Panic" -> Res(Stuck(c, "Panic"), h)
     [] OTHER -> Res(Stuck(c, "unknown primitive " \o op), h)
